@@ -24,6 +24,7 @@ type loopInfo struct {
 	blocks  map[*ssa.BasicBlock]bool
 	latches []*ssa.BasicBlock
 	depth   int
+	rebound bool // header phis already re-bound to their values after the loop
 }
 
 type frame struct {
@@ -377,6 +378,7 @@ func (e *Engine) entryState(fr *frame, b *ssa.BasicBlock, init *State) *State {
 				continue // unrolled: the exit state already contains every iteration's effects
 			}
 			if l.blocks[ps.p] && !l.blocks[b] {
+				e.rebindLoopPhis(fr, l)
 				merged := ps.st.clone()
 				for _, la := range l.latches {
 					if ls := fr.out[la][l.header]; ls != nil && !ls.dead {
@@ -437,6 +439,116 @@ func (e *Engine) entryState(fr *frame, b *ssa.BasicBlock, init *State) *State {
 		}
 	}
 	return res
+}
+
+// rebindLoopPhis: once the blocks after a loop are evaluated, a header phi that advances by a constant c per
+// iteration has the value init + c*N, where N is the trip count of a counting loop `index < N` whose index
+// starts at 0 and steps by 1 (both the classic and the range form) and which is left only through its
+// header (or by returning). Inside the loop these phis are affine in the iteration symbol; using that form
+// after the loop would place later writes on top of the loop's own cells.
+func (e *Engine) rebindLoopPhis(fr *frame, l *loopInfo) {
+	if l.rebound || fr.unroll[l.header] != nil {
+		return
+	}
+	l.rebound = true
+	h := l.header
+	iff, ok := h.Instrs[len(h.Instrs)-1].(*ssa.If)
+	if !ok || !l.blocks[h.Succs[0]] || l.blocks[h.Succs[1]] {
+		return
+	}
+	for b := range l.blocks {
+		if b == h {
+			continue
+		}
+		for _, sc := range b.Succs {
+			if !l.blocks[sc] {
+				if _, isRet := sc.Instrs[len(sc.Instrs)-1].(*ssa.Return); !isRet {
+					return // left by a break: the trip count is not the header's bound
+				}
+			}
+		}
+	}
+	cmp, ok := iff.Cond.(*ssa.BinOp)
+	if !ok || cmp.Op != token.LSS {
+		return
+	}
+	ind, isPhi := cmp.X.(*ssa.Phi)
+	first := int64(0)
+	if !isPhi {
+		bo, isBo := cmp.X.(*ssa.BinOp)
+		if !isBo || bo.Op != token.ADD || bo.Block() != h {
+			return
+		}
+		p2, okp := bo.X.(*ssa.Phi)
+		c1, okc := bo.Y.(*ssa.Const)
+		if !okp || !okc {
+			return
+		}
+		if v, okv := constOf(c1); !okv || v != 1 {
+			return
+		}
+		ind, first = p2, 1
+	}
+	if ind.Block() != h {
+		return
+	}
+	var nA *Aff
+	if nv, ok := fr.vals[cmp.Y].(*IntV); ok && nv.A != nil {
+		if def, isInstr := cmp.Y.(ssa.Instruction); isInstr && !l.blocks[def.Block()] {
+			nA = nv.A
+		}
+	}
+	if nA == nil {
+		return
+	}
+	sym := string(rune('i' + l.depth - 1))
+	if _, mentions := nA.T[sym]; mentions {
+		return
+	}
+	// the index starts at 0 and steps by 1
+	for i, p := range h.Preds {
+		if l.blocks[p] {
+			if c, ok := stepConst(ind, ind.Edges[i]); !ok || c != 1 {
+				return
+			}
+		} else {
+			ic, ok := ind.Edges[i].(*ssa.Const)
+			if !ok {
+				return
+			}
+			v, okv := constOf(ic)
+			if !okv || int64(v)+first != 0 {
+				return
+			}
+		}
+	}
+	for _, instr := range h.Instrs {
+		phi, ok := instr.(*ssa.Phi)
+		if !ok {
+			break
+		}
+		cur, ok := fr.vals[phi].(*IntV)
+		if !ok || cur.A == nil {
+			continue
+		}
+		k, has := cur.A.T[sym]
+		if !has {
+			continue
+		}
+		rest := &Aff{C: cur.A.C, T: map[string]int64{}}
+		for s2, v := range cur.A.T {
+			if s2 != sym {
+				rest.T[s2] = v
+			}
+		}
+		// cur = rest + k*iteration; after N iterations: rest + k*N
+		after := rest.add(nA.scale(k), 1)
+		if phi == ind {
+			// the compared value ind+first equals N at the exit
+			after = nA.add(affConst(first), -1)
+		}
+		fr.vals[phi] = &IntV{B: unkBV(len(cur.B)), A: after}
+	}
 }
 
 // mergeLoop folds the body's effects (latch state ls) into the exit state m whose pre-loop version is pre.
